@@ -36,7 +36,7 @@ func (a *sigAttr) field(i int) *int {
 	return []*int{&a.state, &a.creator, &a.locked, &a.sleep, &a.length, &a.fn, &a.file, &a.line, &a.elided, &a.args}[i]
 }
 
-func v(x uint64) Arg   { return Arg{Value: x, IsPtr: x > pointerFloor && x < pointerCeiling} }
+func v(x uint64) Arg   { return Arg{Value: x, IsPtr: x > 512*1024 && x < 1<<63-1} }
 func agg(f ...Arg) Arg { return Arg{IsAggregate: true, Fields: Args{Values: f}} }
 
 // aggE is an aggregate whose field list is elided: {f..., ...}
@@ -73,12 +73,37 @@ var sigArgShapes = []func() Args{
 	func() Args { return Args{Values: []Arg{v(ptr1)}, Processed: []string{"*T(0xc000012340)"}} },
 }
 
+// setSrc fills the source fields of a Call from public fields only (what the parser
+// derives from a file line).
+func setSrc(c *Call, file string, line int) {
+	c.RemoteSrcPath, c.Line = file, line
+	c.SrcName, c.DirSrc = "", ""
+	if i := strings.LastIndexByte(file, '/'); i != -1 {
+		c.SrcName = file[i+1:]
+		if j := strings.LastIndexByte(file[:i], '/'); j != -1 {
+			c.DirSrc = file[j+1:]
+		}
+	}
+	c.ImportPath = c.Func.ImportPath
+}
+
+// walkArgs visits every scalar argument, depth first.
+func walkArgs(a *Args, f func(*Arg)) {
+	for i := range a.Values {
+		if a.Values[i].IsAggregate {
+			walkArgs(&a.Values[i].Fields, f)
+		} else {
+			f(&a.Values[i])
+		}
+	}
+}
+
 func mkCall(fn, file string, line int, args Args) Call {
 	c := Call{Args: args}
 	if err := c.Func.Init(fn); err != nil {
 		panic(err)
 	}
-	c.init(file, line)
+	setSrc(&c, file, line)
 	return c
 }
 
@@ -104,7 +129,7 @@ func (a sigAttr) build(named bool) *Goroutine {
 	g.Stack.Elided = a.elided == 1
 	if named {
 		for i := range g.Stack.Calls {
-			g.Stack.Calls[i].Args.walk(func(arg *Arg) {
+			walkArgs(&g.Stack.Calls[i].Args, func(arg *Arg) {
 				switch arg.Value {
 				case ptr1:
 					arg.Name = "#1"
@@ -470,7 +495,7 @@ func runAggCheck(t *testing.T, prop string, oracle aggOracle, rule string, nontr
 	ptrShape := map[int]bool{}
 	for i, f := range sigArgShapes {
 		a := f()
-		a.walk(func(x *Arg) {
+		walkArgs(&a, func(x *Arg) {
 			if x.IsPtr {
 				ptrShape[i] = true
 			}
